@@ -29,7 +29,7 @@ import (
 
 type vfScen struct {
 	ID       string `json:"id"`
-	Kind     string `json:"kind"` // perio | mcast | stop | once
+	Kind     string `json:"kind"`     // perio | mcast | stop | once
 	N        int    `json:"n"`        // sessions
 	U        int    `json:"u"`        // periodic URRs per session
 	Bulk     string `json:"bulk"`     // reassoc | delete
